@@ -14,7 +14,7 @@ import (
 func init() {
 	register("C13", "Structural clauses of cp -a preservation, decided on all paths of the copier: metadata (owner, mode, times, then xattrs) is applied after the entry's content and, for directories, after the children; inside copyFileInfo the owner change precedes the mode change which precedes the timestamps, the mode change is skipped for symlinks, the owner is the Chowner's answer for the source uid/gid and the mode comes from the source, the symbolic set or the octal option; timestamps use the option or the source's atime/mtime without following links; regular files consult the per-copier inode map and link on a hit; xattrs use only the no-follow calls and route every error through the handler; created parents are chowned, timed and recorded; every non-directory written passes the single change notification. A copied device node gets the source node's device number; no error result in package copy is left unread, and with a non-nil error from a filesystem, path-resolution, pattern or copy call, or from a function of the package, no success return of the caller is reachable (not-exist tolerances tabled and decided with the predicate pinned false; the copy_file_range fallback only through the userspace copy; errors handed to the caller's xattr handler). xattrs are set with flags 0 (create or replace). Does not decide tree equality, numeric mode semantics or hard-link identity at run time.", runC13)
 	register("C14", "Structural clauses of copy containment (package copy, every non-windows build): every filesystem call of the package is classified and a symlink-following call occurs only at tabled sites whose precondition is re-checked (root-resolved arguments, Lstat-classified directories, a target emptied first, a not-symlink guard); UtimesNanoAt carries AT_SYMLINK_NOFOLLOW; every path Copy hands on derives from fs.RootPath / rootPath; inspection of source and target is Lstat-based; the target is emptied (checked) before anything is created on the non-directory arms. rootPath anchors its argument at the root ('/') before splitting it; the first argument of every root resolution in the package is a root of the enclosing function. Does not decide races, fs.RootPath itself or wildcard expansion.", runC14)
-	register("C15", "The one clause of the overlay rules with a structural form: the only destructive calls of package copy are os.Remove behind an Lstat-says-not-a-directory test and os.RemoveAll behind always-replace && target exists && not (both directories); a directory meeting a non-directory returns an error and touches nothing. Destination path selection, merge semantics, wildcards, trailing separators and idempotence are value-level and declined. MkdirAll cannot succeed on an existing non-directoryxattrs are re-applied with flags 0 (create or replace), so merging a directory and repeating a copy do not fail on attributes already present. .", runC15)
+	register("C15", "The one clause of the overlay rules with a structural form: the only destructive calls of package copy are os.Remove behind an Lstat-says-not-a-directory test and os.RemoveAll behind always-replace && target exists && not (both directories); a directory meeting a non-directory returns an error and touches nothing. Destination path selection, merge semantics, wildcards, trailing separators and idempotence are value-level and declined. MkdirAll cannot succeed on an existing non-directory; xattrs are re-applied with flags 0 (create or replace), so merging a directory and repeating a copy do not fail on attributes already present.", runC15)
 }
 
 func runC13(c *Ctx) {
